@@ -13,7 +13,7 @@ LEVEL = "exploration"
 CLAIM = {
     "text": "Exploration by runtime monitoring: (a) spies on RFIMask.apply_mask/apply_method/apply_funcn assert after every call that chan_mask is a superset of its previous value and equals previous OR the component just computed, and the mask returned by clean_rfi equals user OR stats OR custom; (b) user and statistics masks are recomputed by independent float64 definitions (closed frequency ranges; double-MAD and IQRM z-scores on var/skew/kurtosis) with elements within 1e-4 of the threshold treated as ambiguous, planted outliers must be flagged and all-equal vectors must flag nothing; (c) the cleaned file is compared sample by sample with the input for gulps {1,7,N/3,N,inf} at depths 1,2,4,8,32: masked channels constant at the mask value, every other sample bit-identical; (d) RFIMask.from_file(to_file()) must reproduce arrays, threshold and header.",
     "design_ref": "DESIGN.md section 3 (C16)",
-    "note": "Trusted: numpy float64 median/percentile as the reference for double-MAD and IQRM, vlib/sigfile.py. Frequency ranges are generated >= 1e-3 MHz away from channel centres. The default mask value must lie within one quantisation level of the median of the unmasked channel means.",
+    "note": "Trusted: numpy float64 median/percentile as the reference for double-MAD and IQRM, vlib/sigfile.py. Frequency-range limits are either >= a quarter channel away from every centre or exactly equal to a channel's float32 centre (closed range: included). The default mask value must lie within one quantisation level of the median of the unmasked channel means.",
     "technique": "runtime monitoring: invariant hooks on mask updates + independent reference masks + whole-file differential of the cleaned output",
 }
 ASSUMPTIONS = ["elements whose reference |z| is within 1e-4*threshold (relative) of the threshold are ambiguous and excluded", "custom mask functions return boolean arrays of the right length"]
@@ -24,7 +24,7 @@ DEPTHS = (1, 2, 4, 8, 32)
 
 def REQUIRED(tier):
     return ["files_cleaned", "hook:apply_mask", "hook:apply_method", "hook:apply_funcn", "mask_union_checks", "vectors:mad", "vectors:iqrm", "vector:all_equal", "vector:planted_outlier",
-            "file_samples_compared", "regime:multi_block", "roundtrip_checks", "freq:empty_list", "freq:outside_band", "freq:overlapping"]
+            "file_samples_compared", "regime:multi_block", "roundtrip_checks", "freq:empty_list", "freq:outside_band", "freq:overlapping", "freq:limit_on_centre"]
 
 
 def cases(tier, seed):
@@ -111,7 +111,7 @@ def run_case(case, ctx):
 
 def _freq_ranges(rng, freqs, foff):
     """Random closed ranges whose ends are >= 1e-3 MHz away from every centre; returns (ranges, class)."""
-    cls = str(rng.choice(["none", "empty_list", "single", "overlapping", "outside_band", "whole_channel"]))
+    cls = str(rng.choice(["none", "empty_list", "single", "overlapping", "outside_band", "whole_channel", "limit_on_centre"]))
     lo, hi = freqs.min(), freqs.max()
     h = abs(foff)
 
@@ -119,6 +119,12 @@ def _freq_ranges(rng, freqs, foff):
         k = np.round((v - freqs[0]) / foff - 0.5) + 0.5
         return float(freqs[0] + k * foff)
 
+    if cls == "limit_on_centre":
+        # limits that are exactly the (float32) centre of a channel: the range is closed, so those channels belong to it
+        a, b = sorted(int(v) for v in rng.integers(0, freqs.size, size=2))
+        lims = sorted([float(freqs[a]), float(freqs[b])])
+        k = int(rng.integers(0, freqs.size))
+        return [(lims[0], lims[1]), (float(freqs[k]), float(freqs[k]))], cls
     if cls == "none":
         return None, cls
     if cls == "empty_list":
